@@ -873,7 +873,10 @@ class IrcState(IrcCommandDispatcher, log.Firewalled):
         # NAMES reply.
         (__, type, channel, items) = msg.args
         if channel not in self.channels:
-            self.channels[channel] = ChannelState()
+            # We have left the channel (or have been kicked from it) before
+            # the server replied to NAMES, or this is about a channel we
+            # are not in: we must not start tracking it.
+            return
         c = self.channels[channel]
         for item in items.split():
             if ircutils.isUserHostmask(item):
@@ -933,8 +936,9 @@ class IrcState(IrcCommandDispatcher, log.Firewalled):
         try:
             chan = self.channels[channel]
         except KeyError:
-            chan = ChannelState()
-            self.channels[channel] = chan
+            # We have been kicked from the channel before the server replied
+            # to the MODE command.
+            return
         for (mode, value) in ircutils.separateModes(msg.args[2:]):
             modeChar = mode[1]
             if mode[0] == '+' and mode[1] not in 'ovh':
@@ -948,8 +952,8 @@ class IrcState(IrcCommandDispatcher, log.Firewalled):
         try:
             chan = self.channels[channel]
         except KeyError:
-            chan = ChannelState()
-            self.channels[channel] = chan
+            # Same as above.
+            return
         chan.created = int(msg.args[2])
 
     def doPart(self, irc, msg):
